@@ -54,10 +54,13 @@ CLAIMED["C15"] = ("Theorems C15_* (coq/Properties/C15.v): Transfer.simplify retu
                   "relation adds nothing, backtracking stops at a locked node and _finish_apply keeps a locked target as operand. "
                   "Object identity of locked nodes across every factory call is checked on the real library per run.",
                   "DESIGN.md §4 C15")
-CLAIMED["C17"] = ("Theorems C17_* (coq/Properties/C17.v): conform and every append rule return a SELECT marker, conform is "
-                  "idempotent, compound flag iff skip target is a chain. Marker coherence is evaluated on real trees per run "
-                  "(known finding F13: apply_skip's simplification can swallow an unused calculation, witness in Coq); content "
-                  "preservation of conform is C02's concern.", "DESIGN.md §4 C17")
+CLAIMED["C17"] = ("Theorems C17_* (coq/Properties/C17.v): conform and every append rule return a SELECT marker, conform is idempotent, the "
+                  "compound flag holds iff the skip target is a chain, and C17_conform_preserves_rows: conforming a raw tree (leaves, "
+                  "transfers, materializations, any unary operations, chains, joins of operands that have columns, conformed subtrees) "
+                  "returns a relation with the same rows as a list, the same columns and engine, all of whose markers are coherent. Marker "
+                  "coherence is also evaluated on real trees per run (known finding F13: apply_skip's simplification can swallow an unused "
+                  "calculation, witness in Coq), and raw trees are conformed by the real engine, executed on SQLite under both scan orders "
+                  "and compared with the specification.", "DESIGN.md §4 C17")
 CLAIMED["C20"] = ("Theorems C20_* (coq/Properties/C20.v): an operation's own checks precede all preferred-engine logic, so a missing "
                   "column, an existing tag, a bad slice, mismatched chain operands, an unsupported expression or a join predicate "
                   "with a missing column is rejected with the documented class for every option combination; single ill-typing "
@@ -104,12 +107,15 @@ CLAIMED["C09"] = ("Theorems C09_* (coq/Properties/C09.v), decided by vm_compute 
                   "payload slot or to the name counter. Random interleaved histories (factory calls, compile, process+execute, "
                   "diagnostics, rebuild) re-fingerprint every earlier relation and leaf payload cell after each event. Partial by "
                   "nature: aliasing outside the enumerated sites is not exhibited by the model.", "DESIGN.md §4 C09")
-CLAIMED["C02"] = ("Theorems C02_* (coq/Properties/C02.v), layer (a): Select.apply_skip and every rule of _append_unary_to_select "
-                  "(calculation, deduplication, projection incl. push-down into UNION operands, selection, slice, sort; every slot "
-                  "state) return a conformed relation whose denotation is the applied operation's — list equality, all parameters, "
-                  "all row lists. Layer (b) (to_payload/_select_to_executable and the database) and the binary rules are not proved: "
-                  "they are decided per run by executing the compiled SQL on a real SQLite under both scan orders and comparing the "
-                  "multiset with the specification (forced classes for every repaired defect). Partial.", "DESIGN.md §4 C02")
+CLAIMED["C02"] = ("Theorems C02_* (coq/Properties/C02.v), layer (a): Select.apply_skip, every rule of _append_unary_to_select (calculation, "
+                  "deduplication, projection incl. push-down into UNION operands, selection, slice, sort; every slot state), the chain rule "
+                  "and the join rule of _append_binary_to_select (marker stripping with the hidden-column guard) return a conformed relation "
+                  "whose denotation is the applied operation's — list equality, all parameters, all row lists; and "
+                  "C02_sql_program_denotes_its_specification: every relation a single-engine SQL program of factory calls returns is "
+                  "conformed and denotes the program's specification. Not proved: joins with a zero-column (join-identity) operand, "
+                  "preferred-engine options, and layer (b) (to_payload/_select_to_executable and the database), which are decided per run "
+                  "by executing the compiled SQL on a real SQLite under both scan orders and comparing with the specification (forced "
+                  "classes for every repaired defect and every seeded change). Partial.", "DESIGN.md §4 C02")
 CLAIMED["C08"] = ("Theorem C08_accepted_iteration_program_executes: accepted iteration programs execute (to the specification's rows). "
                   "For the SQL engine the theorem only fixes the shape handed to the compiler; 'compiles and the database accepts it' "
                   "is decided per run on random programs with joins of chains, chains of joins and expression sorts, executed on "
